@@ -46,6 +46,10 @@ void _ZN5QXmpp7Private12serializeXmlINS0_9SmRequestEEE10QByteArrayRKT_(char *ret
 void _ZN5QXmpp7Private12serializeXmlINS0_8SmResumeEEE10QByteArrayRKT_(char *ret, char *pkt) { char *w[2]; vp_writer_init((char*)w); F_vp_c09_toxml_resume(pkt, (char*)w); c09_classify((char*)w, ret); }
 void _ZN5QXmpp7Private12serializeXmlINS0_8SmEnableEEE10QByteArrayRKT_(char *ret, char *pkt) { char *w[2]; vp_writer_init((char*)w); F_vp_c09_toxml_enable(pkt, (char*)w); c09_classify((char*)w, ret); }
 uint8_t vp_c09_false(void) { return 0; }
+#ifndef VP_NFIX
+#define VP_NFIX 0xffffffffu
+#endif
+uint32_t vp_c09_nfix(void) { return VP_NFIX; }
 /* error condition named inside <failed/> (QXmppStanza.cpp is not linked): irrelevant for C09 - any optional<Condition> (value 0..21 in the low word, engaged flag in bit 32) */
 uint64_t _ZN5QXmpp7Private19conditionFromStringERK7QString(char *s) { uint8_t has = vp_bool(); uint32_t c = vp_u32(); ASSUME(c <= 21); return has ? ((uint64_t)1 << 32) | c : 0; }
 /* logging signal of QXmppLoggable (moc): no observable effect */
@@ -62,13 +66,16 @@ typedef struct T_class_QXmppPacket PKT;
 struct ent { uint32_t key; PKT val; };
 struct amap { uint32_t n; struct ent e[MCAP + 1]; };
 #define AMP(self) (*(struct amap**)(self))
-static struct amap *am_new(void) { struct amap *m = malloc(sizeof(struct amap)); ASSUME(m != 0); m->n = 0; return m; }
+static struct amap AM_ZERO;
+static struct amap *am_new(void) { struct amap *m = malloc(sizeof(struct amap)); ASSUME(m != 0); *m = AM_ZERO; return m; }
 static struct amap *AM(char *self) { return AMP(self); }
 static void pk_copy(PKT *d, PKT *s) { F_vp_c09_pkt_copy((char*)d, (char*)s); }
 static void pk_kill(PKT *p) { F_vp_c09_pkt_destroy((char*)p); }
 uint32_t vp_c09_map_n(char *self) { return AM(self)->n; }
 uint32_t vp_c09_map_key(char *self, uint32_t i) { ASSERT(i < MCAP, "C09 model: map index"); return AM(self)->e[i].key; }
 char* vp_c09_map_val(char *self, uint32_t i) { ASSERT(i < MCAP, "C09 model: map index"); return (char*)&AM(self)->e[i].val; }
+void vp_c09_map_set(char *self, uint32_t i, uint32_t key, char *pkt) { ASSERT(i < MCAP, "C09 model: map index"); struct amap *m = AM(self); m->e[i].key = key; pk_copy(&m->e[i].val, (PKT*)pkt); }
+void vp_c09_map_setn(char *self, uint32_t n) { ASSERT(n <= MCAP, "C09 model: map size"); AM(self)->n = n; }
 void _ZN4QMapIj11QXmppPacketEC2Ev(char *self) { AMP(self) = am_new(); }
 void _ZN4QMapIj11QXmppPacketE5clearEv(char *self) { struct amap *m = AM(self); for (uint32_t i = 0; i < MCAP; i++) { if (i >= m->n) break; pk_kill(&m->e[i].val); } m->n = 0; }
 void _ZN4QMapIj11QXmppPacketED2Ev(char *self) { if (AMP(self)) { _ZN4QMapIj11QXmppPacketE5clearEv(self); AMP(self) = 0; } }
@@ -103,6 +110,13 @@ void _ZN4QMapIj11QXmppPacketE14const_iteratorC2EPK8QMapNodeIjS0_E(char *it, char
 void _ZN4QMapIj11QXmppPacketE14const_iteratorC2ERKNS1_8iteratorE(char *it, char *o) { *(char**)it = *(char**)o; }
 char* _ZN4QMapIj11QXmppPacketE8iteratorppEv(char *it) { *(struct ent**)it += 1; return it; }
 char* _ZN4QMapIj11QXmppPacketE14const_iteratorppEv(char *it) { *(struct ent**)it += 1; return it; }
+char* _ZN4QMapIj11QXmppPacketE8iteratormmEv(char *it) { *(struct ent**)it -= 1; return it; }
+char* _ZN4QMapIj11QXmppPacketE14const_iteratormmEv(char *it) { *(struct ent**)it -= 1; return it; }
+static struct ent *am_find(struct amap *m, uint32_t key) { for (uint32_t i = 0; i < MCAP; i++) { if (i >= m->n) break; if (m->e[i].key == key) return &m->e[i]; } return &m->e[m->n]; }
+char* _ZN4QMapIj11QXmppPacketE4findERKj(char *self, char *k) { return (char*)am_find(AM(self), *(uint32_t*)k); }
+char* _ZNK4QMapIj11QXmppPacketE4findERKj(char *self, char *k) { return (char*)am_find(AM(self), *(uint32_t*)k); }
+char* _ZNK4QMapIj11QXmppPacketE9constFindERKj(char *self, char *k) { return (char*)am_find(AM(self), *(uint32_t*)k); }
+uint8_t _ZNK4QMapIj11QXmppPacketE8containsERKj(char *self, char *k) { struct amap *m = AM(self); return am_find(m, *(uint32_t*)k) != &m->e[m->n]; }
 char* _ZNK4QMapIj11QXmppPacketE8iterator3keyEv(char *it) { return (char*)&(*(struct ent**)it)->key; }
 char* _ZNK4QMapIj11QXmppPacketE14const_iterator3keyEv(char *it) { return (char*)&(*(struct ent**)it)->key; }
 char* _ZNK4QMapIj11QXmppPacketE8iterator5valueEv(char *it) { return (char*)&(*(struct ent**)it)->val; }
